@@ -170,6 +170,7 @@ type Frame struct {
 	parent               *Frame              // the frame this one is inlined into
 	privAllocs           map[*ssa.Alloc]bool // local variables whose address never leaves the function (cached)
 	privDone             bool
+	privMaps             map[*ssa.MakeMap]bool // maps made in this function that never leave it
 	regionExits          []retInfo
 	nameOverride         map[string]*SVal
 }
@@ -1803,10 +1804,41 @@ func (f *Frame) privateAllocs() map[*ssa.Alloc]bool {
 		}
 		return true
 	}
+	f.privMaps = map[*ssa.MakeMap]bool{}
 	for _, b := range f.fn.Blocks {
 		for _, ins := range b.Instrs {
 			if a, ok := ins.(*ssa.Alloc); ok && addrOnly(a, 0) {
 				f.privAllocs[a] = true
+			}
+			// a map made here and only ever looked up, updated, measured, ranged over or deleted from in this
+			// function: no callee can hold it
+			if m, ok := ins.(*ssa.MakeMap); ok {
+				priv := true
+				if refs := m.Referrers(); refs != nil {
+					for _, r := range *refs {
+						switch x := r.(type) {
+						case *ssa.DebugRef:
+						case *ssa.Lookup:
+							if x.X != ssa.Value(m) {
+								priv = false
+							}
+						case *ssa.MapUpdate:
+							if x.Map != ssa.Value(m) || x.Key == ssa.Value(m) || x.Value == ssa.Value(m) {
+								priv = false
+							}
+						case *ssa.Range:
+						case *ssa.Call:
+							if bi, ok := x.Call.Value.(*ssa.Builtin); !ok || (bi.Name() != "len" && bi.Name() != "delete") {
+								priv = false
+							}
+						default:
+							priv = false
+						}
+					}
+				}
+				if priv {
+					f.privMaps[m] = true
+				}
 			}
 		}
 	}
@@ -1818,6 +1850,33 @@ func (f *Frame) privateAllocs() map[*ssa.Alloc]bool {
 func (f *Frame) keepPrivateLocals(pre, post *State) {
 	g := f.g
 	for fr := f; fr != nil; fr = fr.parent {
+		fr.privateAllocs()
+		for m := range fr.privMaps {
+			mv, ok := fr.vals[m]
+			if !ok {
+				continue
+			}
+			mt := m.Type().Underlying().(*types.Map)
+			func() {
+				defer func() {
+					if r := recover(); r != nil {
+						if _, ok := r.(unsupportedErr); !ok {
+							panic(r)
+						}
+					}
+				}()
+				ks := g.mapKeySort(mt)
+				fd, fv, fl := mapFams(mt)
+				ds := arrSort(SBV64, arrSort(ks, SBool))
+				g.heapSet(post, fd, ds, sStore(g.heapGet(post, fd, ds), mv.Term, sSel(g.heapGet(pre, fd, ds), mv.Term)))
+				ls := arrSort(SBV64, SBV64)
+				g.heapSet(post, fl, ls, sStore(g.heapGet(post, fl, ls), mv.Term, sSel(g.heapGet(pre, fl, ls), mv.Term)))
+				for _, l := range g.W.leaves(mt.Elem()) {
+					srt := arrSort(SBV64, arrSort(ks, l.Sort))
+					g.heapSet(post, fv+"#"+l.Path, srt, sStore(g.heapGet(post, fv+"#"+l.Path, srt), mv.Term, sSel(g.heapGet(pre, fv+"#"+l.Path, srt), mv.Term)))
+				}
+			}()
+		}
 		for a := range fr.privateAllocs() {
 			p, ok := fr.vals[a]
 			if !ok {
